@@ -90,6 +90,10 @@ func vArbJob(tag string, n int, pipeline string) *PipelineJob {
 		j.Completed = true
 		st := verifTime(c)
 		j.Start = &st
+		e := verifInt64Range(tag+".end", 1, 1<<61)
+		verifAssume(e >= c)
+		en := verifTime(e)
+		j.End = &en
 		j.Tasks = jobTasks{{Name: "a", Status: "done"}}
 		return j
 	}
@@ -98,6 +102,14 @@ func vArbJob(tag string, n int, pipeline string) *PipelineJob {
 	if verifChoose(tag+"?started", 2) == 1 {
 		st := verifTime(c)
 		j.Start = &st
+		// a started job that is over may carry its end instant (any instant from its creation on)
+		if verifChoose(tag+"?ended", 2) == 1 {
+			verifAssume(verifOr(j.Completed, j.Canceled))
+			e := verifInt64Range(tag+".end", 1, 1<<61)
+			verifAssume(e >= c)
+			en := verifTime(e)
+			j.End = &en
+		}
 	}
 	j.Tasks = jobTasks{{Name: "a", Status: "done"}}
 	return j
